@@ -335,9 +335,11 @@ func (fx *FuncVC) loadPtr(st *State, p PtrV) Val {
 			var cell T
 			if p.Kind == pkHeap {
 				h := fx.heap(st, objHeapName(p.Root, prefix+l.Path), fx.heapSortObj(l.Sort))
+				fx.closedHeapAxiom(objHeapName(p.Root, prefix+l.Path), l.Sort, l, false)
 				cell = Select(h, p.Ref)
 			} else {
 				h := fx.heap(st, elemHeapName(p.Root, prefix+l.Path), fx.heapSortElem(l.Sort))
+				fx.closedHeapAxiom(elemHeapName(p.Root, prefix+l.Path), l.Sort, l, true)
 				cell = Select(Select(h, p.Base), p.Idx)
 			}
 			for _, ix := range idxs {
